@@ -191,7 +191,8 @@ def search(ctx, boost=1, focus=()):
         peaks = np.stack([rng.integers(-2, sy + 2, 5), rng.integers(-2, sx + 2, 5)], axis=1)
         p = {"pattern": pat, "peaks": peaks, "sy": sy, "sx": sx}
         ctx.oracle_case("feature_vector", p, run_case("feature_vector", p))
-        p = {"sy": sy, "sx": sx, "radius": float(np.round(rng.uniform(0.5, 8), 2)),
+        p = {"sy": sy, "sx": sx, "radius": float(np.round(rng.uniform(0.5, 8), 2)) if k % 3 else
+             float(np.hypot(int(rng.integers(0, 7)), int(rng.integers(1, 7)))),      # the distance of a lattice neighbour
              "centers": [[int(rng.integers(-3, sy + 3)), int(rng.integers(-3, sx + 3))] for _ in range(4)],
              "center_dtype": [None, "int64", "uint8", "uint16", "int16", "uint64", "float64", "uint32"][k % 8]}
         if p["center_dtype"] and np.dtype(p["center_dtype"]).kind == "u":
